@@ -329,7 +329,6 @@ func (p *Proxy) handleCONNECT(r responder.Responder, proxyReq *http.Request) err
 	// Create a buffered reader for the client connection. This is required to
 	// use http package functions with this connection.
 	connReader := bufio.NewReader(tlsConn)
-	responder := responder.NewRawHTTPResponder(tlsConn)
 
 	slog.Debug("Entering request loop for CONNECT tunnel", "host", proxyReq.Host)
 	for {
@@ -345,7 +344,9 @@ func (p *Proxy) handleCONNECT(r responder.Responder, proxyReq *http.Request) err
 		}
 
 		req.Close = true
-		if err := p.handleHTTP(responder, req); err != nil {
+		// Every exchange gets its own responder: a responder accumulates the headers, framing and
+		// status of the response it builds, none of which may leak into the next exchange.
+		if err := p.handleHTTP(responder.NewRawHTTPResponder(tlsConn), req); err != nil {
 			slog.Error("Error processing HTTP request in CONNECT tunnel", "host", proxyReq.Host, "error", err)
 		}
 	}
